@@ -150,6 +150,12 @@ impl ISecureFramer for LengthPrefixedFramer {
   fn write_msg_multipart(&mut self, msgs: FrameBatch) -> Result<Bytes, ZmqError> {
     let plaintext = self.framer.frame_contiguous(&[msgs])?;
     let ciphertext = self.cipher.encrypt(&plaintext)?;
+    if ciphertext.len() > u16::MAX as usize {
+      return Err(ZmqError::InvalidMessage(format!(
+        "encrypted record of {} bytes exceeds the 65535-byte record limit",
+        ciphertext.len()
+      )));
+    }
     let mut out = BytesMut::with_capacity(2 + ciphertext.len());
     out.put_u16(ciphertext.len() as u16);
     out.extend_from_slice(&ciphertext);
@@ -159,6 +165,12 @@ impl ISecureFramer for LengthPrefixedFramer {
   fn write_msg_batch(&mut self, batch: &[FrameBatch]) -> Result<Bytes, ZmqError> {
     let plaintext = self.framer.frame_contiguous(batch)?;
     let ciphertext = self.cipher.encrypt(&plaintext)?;
+    if ciphertext.len() > u16::MAX as usize {
+      return Err(ZmqError::InvalidMessage(format!(
+        "encrypted record of {} bytes exceeds the 65535-byte record limit",
+        ciphertext.len()
+      )));
+    }
     let mut out = BytesMut::with_capacity(2 + ciphertext.len());
     out.put_u16(ciphertext.len() as u16);
     out.extend_from_slice(&ciphertext);
